@@ -49,13 +49,13 @@ def cells(tier, seed):
     out = []
     for w in ortho_wavelets():
         L = refs.flen(w)
-        for J in ([rnd.choice([1, 2, 3])] if tier == 'quick' else [1, 2, 3]):
-            ms = [L // 2, L // 2 + 1, L // 2 + 3] if tier == 'quick' else [L // 2 + i for i in range(6)]
+        for J in ([rnd.choice([1, 2, 3])] if tier == 'quick' else [1, 2, 3, 4]):
+            ms = [L // 2, L // 2 + 1, L // 2 + 3] if tier == 'quick' else [L // 2 + i for i in range(12)]
             for m in (rnd.sample(ms, 2) if tier == 'quick' else ms):
                 out.append({'dim': 1, 'wave': w, 'mode': rnd.choice(['periodization', 'periodization', 'per']), 'J': J,
                             'shape': [m * 2 ** J], 'N': 2, 'C': 2})
         if L <= (12 if tier == 'quick' else 16):
-            for _ in range(1 if tier == 'quick' else 6):
+            for _ in range(1 if tier == 'quick' else 40):
                 J = rnd.choice([1, 2])
                 m1, m2 = L // 2 + rnd.choice([0, 1]), L // 2 + rnd.choice([2, 3])
                 out.append({'dim': 2, 'wave': w, 'mode': 'periodization', 'J': J, 'shape': [m1 * 2 ** J, m2 * 2 ** J],
